@@ -106,8 +106,9 @@ CHECKS.update({
              "variable), nothing else except declared user constraints/variables.",
         note="Bounded: histories of length 1 (full alphabet), 2 (sub-alphabet quick, full thorough), 3 (sub-alphabet thorough); one "
              "symbolic reaction. optlang's translation to GLPK, solver cloning and the GLPK text-format copy are trusted base, "
-             "cross-checked on witness replays (GLPK problem read back through optlang); 'glpk_exact' and solver switching not "
-             "exercised symbolically. " + NOTE_COMMON, ref="4/C01"),
+             "cross-checked on witness replays (GLPK problem read back through optlang); switching the solver interface runs cobrapy's "
+             "setter against a second instance of the contract stub presented as another interface (glpk <-> glpk_exact on replays). "
+             + NOTE_COMMON, ref="4/C01"),
     "C02": dict(
         text="Same histories as C01; after every step (a) the state is compared with an executable reference of the documented "
              "semantics (vlib/refmodel.py, written from the docstrings: bounds setters, knock_out, add/subtract metabolites with "
